@@ -40,7 +40,7 @@ def damage(r, cells, spans, order, kind=None):
     """returns (cells', set of physical indexes whose fields were hit by guaranteed-detectable damage,
     set of physical indexes possibly affected in any way, description)"""
     c = list(cells)
-    kind = r.below(13) if kind is None else kind % 13
+    kind = r.below(14) if kind is None else kind % 14
     hit, touched = set(), set()
     if kind <= 3:      # detectable damage inside one or more fields
         for _ in range(r.range(1, 3)):
@@ -113,6 +113,13 @@ def damage(r, cells, spans, order, kind=None):
                 c[p] = 0 if kind == 10 else r.below(2)
         touched = {k, min(len(order) - 1, k + 1)}
         desc = 'data-mark-and-next-id-destroyed'
+    elif kind == 13:   # a single flipped data bit whose effect on the CRC leaves one of the two CRC bytes unchanged
+        f = r.choice([x for x in spans if x[0] == 'data'])
+        j, b = r.choice(HALF_CRC_FLIPS)
+        c[f[2] + 16 * j + 2 * b + 1] ^= 1
+        hit.add(f[1])
+        touched.add(f[1])
+        desc = 'crc-one-byte-intact'
     else:              # random noise over a stretch
         a = r.below(len(c))
         for p in range(a, min(len(c), a + r.choice([16, 100, 1000]))):
@@ -120,6 +127,22 @@ def damage(r, cells, spans, order, kind=None):
         touched = set(range(len(order)))
         desc = 'noise'
     return c, hit, touched, desc
+
+
+def _half_crc_flips():
+    """(byte index, bit index MSB-first) within mark+256 data bytes whose single-bit flip changes the CRC in one byte only"""
+    out = []
+    for j in range(257):
+        for b in range(8):
+            e = bytearray(257)
+            e[j] = 0x80 >> b
+            d = flux.crc_ccitt(bytes(e), 0)
+            if d and ((d & 0xFF) == 0 or (d >> 8) == 0):
+                out.append((j, b))
+    return out
+
+
+HALF_CRC_FLIPS = _half_crc_flips()
 
 
 def data_crc_ok(mfm, data, c1, c2):
@@ -133,6 +156,8 @@ def run(ctx):
     reqs, metas = [], []
     for k in range(60 if quick else 1500):
         mfm = r.chance(1, 2)
+        if k % 14 == 13:
+            mfm = (k // 14) % 2 == 0        # the CRC-specific damage on both encodings in every run
         nsec = r.choice([10, 10, 4]) if not mfm else r.choice([18, 16, 5])
         lay = rand_layout(r, mfm, nsec)
         if r.chance(1, 4):
@@ -207,41 +232,47 @@ def run(ctx):
 def run_images(ctx, r, quick):
     impl = ctx.build('asan')
     cases = []
-    for k in range(6 if quick else 60):
-        mfm = (r.chance(1, 2) or k == 0) and k != 1
-        tracks, spt = (r.choice([3, 5, 40]), 18 if mfm else 10)
-        kind = r.choice(['hfe1', 'hfe3', 'hxc'] if mfm else ['hfe1', 'hfe3'])
-        if k == 0:
-            kind = 'hxc'
-        if k == 1:
-            kind = 'hfe1'
-        content = {(t, s): bytes([t, s, k & 255]) + r.bytes(253) for t in range(tracks) for s in range(spt)}
+    for k in range(8 if quick else 64):
+        forced = {0: ('hxc', True, 4), 1: ('hfe1', False, 5), 2: ('hxc', True, 6), 3: ('hfe1', False, 7), 4: ('hfe3', True, 7), 5: ('hfe1', False, 6)}.get(k)
+        if forced:
+            kind, mfm, style = forced
+            tracks = 5
+        else:
+            mfm = r.chance(1, 2)
+            tracks = r.choice([3, 5, 40])
+            kind = r.choice(['hfe1', 'hfe3', 'hxc'] if mfm else ['hfe1', 'hfe3'])
+            style = r.below(8)
+        spt = 18 if mfm else 10
+        base = 1 if style == 7 else 0           # style 7: IBM-style record numbers 1..spt (legitimate, never produced by a BBC)
+        recs = list(range(base, base + spt))
+        content = {(t, s): bytes([t, s, k & 255]) + r.bytes(253) for t in range(tracks) for s in recs}
         lays = {t: rand_layout(r, mfm, spt) for t in range(tracks)}
-        style = 4 if k == 0 else 5 if k == 1 else r.below(6)
+        for t in range(tracks):
+            lays[t].order = [x + base for x in lays[t].order]
+        top = recs[-1]
         if style == 5:      # the highest record of every track is a deleted-data record (damaged on some tracks)
             for t in range(tracks):
-                lays[t].deleted = {spt - 1}
+                lays[t].deleted = {top}
         per_track = []
-        victims = [] if style == 0 else list(range(tracks)) if style == 1 else r.shuffle(list(range(tracks)))[:max(1, tracks // 3)]
-        if style == 4:      # lose the top record on some tracks only (HxC MFM does not insist on a constant count)
-            victims = sorted(victims)
-            if kind != 'hxc':
-                style = 2
+        victims = [] if style in (0, 7) else list(range(tracks)) if style == 1 else sorted(r.shuffle(list(range(tracks)))[:max(1, tracks // 3)])
+        if style in (4, 6) and kind != 'hxc':
+            victims = list(range(tracks))       # HFE insists on the same number of sectors on every track
         info = {}
         for t in range(tracks):
-            secs = {s: content[(t, s)] for s in range(spt)}
+            secs = {s: content[(t, s)] for s in recs}
             cells = flux.mfm_track(t, 0, secs, lays[t]) if mfm else flux.fm_track(t, 0, secs, lays[t])
-            if t in victims and style in (1, 4):
-                # lose the highest-numbered record of every track: the image stays consistent, with one sector per track fewer
+            if t in victims and style in (1, 4, 6):
+                # lose the highest (or, style 6, the lowest) record: the image stays usable, with one sector fewer on that track
+                lost = recs[0] if style == 6 else top
                 sp = field_spans(lays[t], mfm, spt)
-                idx = lays[t].order.index(spt - 1)
+                idx = lays[t].order.index(lost)
                 f = [x for x in sp if x[0] == 'id' and x[1] == idx][0]
                 for p in range(f[2], f[3]):
                     cells[p] = 0
-                info[t] = 'top-record-lost'
+                info[t] = 'first-record-lost' if style == 6 else 'top-record-lost'
             elif t in victims and style == 5:
                 sp = field_spans(lays[t], mfm, spt)
-                idx = lays[t].order.index(spt - 1)
+                idx = lays[t].order.index(top)
                 f = [x for x in sp if x[0] == 'data' and x[1] == idx][0]
                 for p in r.shuffle(list(range(f[2] + 17, f[3], 2)))[:3]:
                     cells[p] ^= 1
@@ -249,6 +280,8 @@ def run_images(ctx, r, quick):
             elif t in victims:
                 cells, hit, touched, desc = damage(r, cells, field_spans(lays[t], mfm, spt), lays[t].order)
                 info[t] = desc
+            elif style == 7:
+                info[t] = 'records-numbered-from-1'
             per_track.append([cells])
         if kind == 'hxc':
             name, img = 'x.mfm', flux.hxcmfm_image(per_track, 1)
@@ -256,15 +289,17 @@ def run_images(ctx, r, quick):
             name, img = 'x.hfe', flux.hfe_image(per_track, 1, not mfm)
         else:
             name, img = 'y.hfe', flux.hfe_image(per_track, 1, not mfm, v3=True, opcode_rng=r.fork(), opcode_density=40, straddle=r.chance(1, 2))
-        probes = [(t, s) for t in victims for s in (range(spt) if style not in (1, 4, 5) else [0, spt - 2, spt - 1])]
-        if style in (4, 5):
+        special = style in (1, 4, 5, 6, 7)
+        probes = [(t, s) for t in victims for s in (range(spt) if not special else [0, 1, spt - 2, spt - 1])]
+        if special:
             probes += [(t, s) for t in range(tracks) for s in (0, 1, spt - 1)]
         probes += [(t, r.below(spt)) for t in range(tracks) if t not in victims][:6]
-        if quick:
+        probes = sorted(set(probes))
+        if quick and not special:
             probes = r.shuffle(probes)[:14]
         for (t, s) in probes:
             cases.append(vlib.Case('img%d' % k, {name: img}, ['--file', '@' + name, 'dump-sector', '0', str(t), str(s)],
-                                   meta={'want': content[(t, s)], 'content': content, 'deleted': (style == 5 and s == spt - 1), 't': t, 's': s, 'kind': kind, 'damage': info.get(t, 'intact-track'), 'mfm': mfm}))
+                                   meta={'want': content.get((t, s)), 'content': content, 'deleted': (style == 5 and s == top), 't': t, 's': s, 'kind': kind, 'damage': info.get(t, 'intact-track'), 'mfm': mfm}))
     vlib.run_cases(cases, impl['dfs'], timeout=60)
     for c in cases:
         m = c.meta
@@ -281,6 +316,12 @@ def run_images(ctx, r, quick):
             ctx.count('image-read.failed')
             continue
         got = parse_hexdump(i['out'])
+        if m['want'] is None:
+            # no sector was recorded under this address (records numbered from 1): only a failure is right
+            src = [k2 for k2, v in m['content'].items() if v == got]
+            ctx.violation('image-unrecorded-address-read:%s' % m['kind'], 'dump-sector of track %d sector %d, an address that was never recorded, succeeded and shows %s' % (
+                m['t'], m['s'], ('the data recorded as track %d sector %d' % src[0]) if src else 'other data'), common.replay_of(c))
+            continue
         if got == m['want'] and not m['deleted']:
             ctx.count('image-read.correct')
             continue
